@@ -8,13 +8,11 @@
    Valid s (ChainMain): the invariant of every store reachable by ingestion of positive-work headers
           (ChainMain.reachable_valid), so each theorem below composes to "for all histories".
 
-   Full statement: "... In answer to ANY getheaders (locator, stop hash) it returns the longest-chain headers
-   immediately following the highest locator entry that is on its longest chain - from height 1 if none is - ...;
-   a stop at or below the start yields nothing."
-   That is FALSE for the code as it is in two corner cases (C13_stop_genesis_refuted: the stop hash is the genesis
-   block; C13_empty_locator_refuted: the locator is empty) - known findings.  C13_locate_partial is the statement
-   for all other inputs; C13_locate_safe (parent-linked ascending longest-chain run of at most cap headers above
-   the start) holds for ALL inputs, the two corner cases included. *)
+   The full statement is proved (C13_locate: for ALL locators and stop hashes).
+   History: up to /repo 1a05aed the code departed from the statement in two corner cases - stop hash = genesis
+   was treated as "no stop" and an empty locator was refused - which were proved as `_refuted` lemmas here and
+   recorded as known findings; they were repaired by the fix: commits 1ef8815 and 744966c, the model follows the
+   repaired code, and the witnesses stay in corpus/C13 (findings/C13.json: status fixed). *)
 From Coq Require Import ZArith NArith List.
 From BHS Require Import Store ChainSpec ChainMain Locator LocatorProofs.
 Import ListNotations.
@@ -52,9 +50,11 @@ Theorem C13_locator_length : forall s t, Valid s -> tipB s = Some t -> height t 
   exists l, latest_locator s = Some l /\ Z.of_nat (length l) = max_entries (height t) /\ max_entries (height t) <= 43.
 Proof. exact locator_length_thm. Qed.
 
-(* which headers: for every non-empty locator and every stop hash other than the genesis hash the answer is
-   the specification's (full statement minus the two refuted corner cases) *)
-Theorem C13_locate_partial : forall s locs stop, Valid s -> locs <> [] -> stop <> genesis_id s ->
+(* which headers: for every locator (also empty) and every stop hash (also the genesis hash) the answer is the
+   specification's: the main-chain headers immediately following the highest locator entry on the main chain -
+   from height 1 if none is - up to the stop hash when it lies ahead, at most cap; nothing when the stop is at or
+   below the start (C13_spec_meaning spells the specification out) *)
+Theorem C13_locate : forall s locs stop, Valid s ->
   answer (locate s locs stop) = spec_locate s locs stop.
 Proof. exact locate_matches_spec. Qed.
 
@@ -89,21 +89,13 @@ Theorem C13_example_locator :
   latest_locator (lin_store 30) = Some [31; 30; 29; 28; 27; 26; 25; 24; 23; 22; 21; 20; 18; 14; 6; 1]%N.
 Proof. exact locator_example_doubling. Qed.
 Theorem C13_example_locate :
-  Valid ex_store /\ [3%N; 2%N; 99%N] <> [] /\ 7%N <> genesis_id ex_store /\
+  Valid ex_store /\
   map id (answer (locate ex_store [3%N; 2%N; 99%N] 7%N)) = [7%N] /\
   map id (answer (locate ex_store [4%N; 5%N] 0%N)) = [2%N; 7%N] /\
-  locate ex_store [7%N] 2%N = LErr EStopLow.
+  locate ex_store [7%N] 2%N = LErr EStopLow /\
+  locate ex_store [1%N] (genesis_id ex_store) = LErr EStopLow /\
+  map id (answer (locate ex_store [] 0%N)) = [2%N; 7%N].
 Proof. exact locate_example. Qed.
-
-(* the two corner cases where the code departs from the statement (known findings) *)
-Theorem C13_stop_genesis_refuted :
-  exists s locs stop, Valid s /\ locs <> [] /\ stop = genesis_id s /\
-    spec_locate s locs stop = [] /\ map id (answer (locate s locs stop)) = [2%N; 7%N].
-Proof. exact locate_stop_genesis_refuted_thm. Qed.
-Theorem C13_empty_locator_refuted :
-  exists s stop, Valid s /\ locate s [] stop = LErr ENoLocators /\ answer (locate s [] stop) = [] /\
-    map id (spec_locate s [] stop) = [2%N; 7%N].
-Proof. exact locate_empty_locator_refuted_thm. Qed.
 
 Print Assumptions C13_cap.
 Print Assumptions C13_locator_is_spec.
@@ -111,10 +103,8 @@ Print Assumptions C13_locator_shape.
 Print Assumptions C13_gap_one.
 Print Assumptions C13_gap_double.
 Print Assumptions C13_locator_length.
-Print Assumptions C13_locate_partial.
+Print Assumptions C13_locate.
 Print Assumptions C13_locate_safe.
 Print Assumptions C13_spec_meaning.
 Print Assumptions C13_example_locator.
 Print Assumptions C13_example_locate.
-Print Assumptions C13_stop_genesis_refuted.
-Print Assumptions C13_empty_locator_refuted.
